@@ -1,7 +1,7 @@
 (** C05: every instantiation's skeleton is the normalised source definition (fragment). *)
 From Coq Require Import List NArith String Bool Lia Arith.
 From V Require Import Base.Util Base.Strings Base.Result Model.Registry Model.Settings Model.Subst
-  Model.TypePath Model.Derives Model.Generate Model.WellFormed Model.Shape Model.Program
+  Model.TypePath Model.Derives Model.Generate Model.WellFormed Model.Shape Model.Program Model.ProgramSkel
   Checkers.Parse Checkers.Sem
   Proofs.GenProofs Proofs.ResolveTotal Proofs.GenTotal Proofs.ClosedProofs.
 Import ListNotations.
@@ -127,6 +127,46 @@ Lemma param_ids_eq t :
   param_ids t = flat_map (fun p => match tp_ty p with Some i => [i] | None => [] end) (t_params t).
 Proof. reflexivity. Qed.
 
+
+(** a path resolved without generic arguments is a bare path *)
+Lemma tpmws_shape s p t : type_path_maybe_with_substitutes s p [] = Ok t -> exists toks, t = TPath toks [].
+Proof.
+  unfold type_path_maybe_with_substitutes, for_path_with_params. intros H.
+  destruct (subs_get (s_subs s) p) as [sub|].
+  - destruct (su_map sub) as [|m].
+    + inversion H. eauto.
+    + set (sel := flat_map _ m) in H.
+      assert (E : sel = []).
+      { subst sel. clear H. induction m as [|[id idx] m IH]; [reflexivity|]. cbn [flat_map].
+        destruct idx; cbn [nth_error app]; exact IH. }
+      rewrite E in H. inversion H. eauto.
+  - apply bind_ok in H as (q & _ & H). inversion H. eauto.
+Qed.
+
+Lemma cs_not_cow args : forall x,
+  match unbox x with SCow _ | SParam _ => False | _ => True end -> forall y, cs args x <> SCow y.
+Proof.
+  induction x; intros H y; cbn [unbox] in H; try (unfold cs; cbn [subst_src canon]; discriminate).
+  - destruct H.
+  - unfold cs. cbn [subst_src canon]. apply IHx. exact H.
+  - destruct H.
+Qed.
+
+Lemma components_self defs x n : (src_size x <= n)%nat -> In x (components_fuel n defs x).
+Proof.
+  intros H. destruct n as [|n]; [destruct x; cbn [src_size] in H; lia|].
+  rewrite components_S. left; reflexivity.
+Qed.
+
+Lemma unbox_param defs i : forall x k, (src_size x <= k)%nat -> unbox x = SParam i ->
+  x = SParam i \/ In (SBox (SParam i)) (components_fuel k defs x).
+Proof.
+  induction x; intros k Hs H; cbn [unbox] in H; try discriminate.
+  - left. exact H.
+  - right. destruct k as [|k]; [cbn [src_size] in Hs; lia|]. rewrite components_S. cbn [src_size] in Hs.
+    destruct (IHx k ltac:(lia) H) as [->|Hin]; [left; reflexivity|right; exact Hin].
+Qed.
+
 Section Core.
   Variable defs : list sdef.
   Variable L : N -> option src.
@@ -135,6 +175,8 @@ Section Core.
   Variable otp : bool -> tpath.
   Hypothesis HR : RegistryOf defs L r.
   Hypothesis Hdefs : forall sd, In sd defs -> def_okb s sd = true.
+  Hypothesis Hprel : prelude_okb s = true.
+  Hypothesis Hord : order_resolves s otp.
 
   (** the instantiation whose entry is being turned into an item *)
   Variable sd : sdef.
@@ -184,6 +226,94 @@ Section Core.
     rewrite param_ids_eq, Hps. auto.
   Qed.
 
+  Lemma prelude_sub nm : In nm prelude_names -> subs_get (s_subs s) [nm] = None.
+  Proof.
+    intros H. unfold prelude_okb in Hprel. rewrite forallb_forall in Hprel. specialize (Hprel nm H).
+    destruct (subs_get (s_subs s) [nm]); [discriminate|reflexivity].
+  Qed.
+
+  Lemma otp_erase lsb : erase_tpath (otp lsb) = otp lsb.
+  Proof. destruct (tpmws_shape _ _ _ (Hord lsb)) as (toks & ->). reflexivity. Qed.
+
+  (** a prelude entry [Option / Result / BTreeMap / BTreeSet / Range]: its table path applied to
+      its resolved parameters *)
+  Lemma resolve_prelude fuel id isf orig t0 nm toks t :
+    find_parent parents id orig = None ->
+    resolve r id = Some t0 -> t_path t0 = [nm] -> In nm prelude_names ->
+    is_composite_or_variant (t_def t0) = true ->
+    assoc_str (prelude_table (alloc_tokens (s_alloc s))) nm = Some toks ->
+    resolve_rec r s (S fuel) id isf parents orig = Ok t ->
+    exists ps, mapM (F fuel) (param_ids t0) = Ok ps /\ t = TPath toks ps.
+  Proof.
+    intros Hf Hr Hp Hin Hcv Ha Hres. rewrite resolve_rec_S, Hf in Hres.
+    rewrite (resolve_type_entry _ _ Hr) in Hres. cbn [bind] in Hres.
+    assert (Hc : cow_step r t0 = Ok t0).
+    { rewrite cow_step_eq, Hp. cbn [path_ident last is_cow].
+      destruct Hin as [<-|[<-|[<-|[<-|[<-|[]]]]]]; reflexivity. }
+    rewrite Hc in Hres. cbn [bind] in Hres. apply bind_ok in Hres as (ps & Hps & Hres).
+    exists ps. split; [exact Hps|].
+    assert (Hcv' : resolve_def r s fuel isf parents t0 ps = type_path_maybe_with_substitutes s (t_path t0) ps).
+    { unfold resolve_def. destruct (t_def t0); try discriminate Hcv; reflexivity. }
+    rewrite Hcv' in Hres. unfold type_path_maybe_with_substitutes, for_path_with_params in Hres.
+    rewrite Hp, (prelude_sub nm Hin) in Hres. unfold from_type_def_path in Hres. rewrite Ha in Hres.
+    cbn [bind] in Hres. inversion Hres. reflexivity.
+  Qed.
+
+  Lemma resolve_prim fuel id isf orig p t :
+    find_parent parents id orig = None -> L id = Some (SPrimT p) ->
+    resolve_rec r s (S fuel) id isf parents orig = Ok t -> t = TPrim p.
+  Proof.
+    intros Hf Hl Hres. rewrite resolve_rec_S, Hf in Hres.
+    destruct (entry _ _ Hl) as (t0 & Hr0 & Hb). destruct (builtin_not_cow _ _ Hb) as (Hc & Hp & Hd).
+    rewrite (resolve_type_entry _ _ Hr0) in Hres. cbn [bind] in Hres. rewrite Hc in Hres. cbn [bind] in Hres.
+    rewrite Hp in Hres. cbn [mapM bind] in Hres. unfold resolve_def in Hres. rewrite Hd in Hres.
+    inversion Hres; reflexivity.
+  Qed.
+
+  (** the bit-order marker (the only unlabelled entries) resolves to what the settings say *)
+  Lemma resolve_order fuel io lsb ot t :
+    L io = None -> resolve r io = Some ot -> order_marker lsb ot ->
+    resolve_rec r s (S fuel) io false parents None = Ok t -> t = otp lsb.
+  Proof.
+    intros Hl Hr (Hp & Hps & Hd) Hres. rewrite resolve_rec_S in Hres.
+    rewrite find_parent_none in Hres.
+    2:{ intros p Hp' E. destruct (Hpar p Hp') as (i & nm & a & _ & _ & _ & _ & H5).
+        rewrite E, Hl in H5. discriminate. }
+    rewrite (resolve_type_entry _ _ Hr) in Hres. cbn [bind] in Hres.
+    assert (Hc : cow_step r ot = Ok ot). { rewrite cow_step_eq, Hp. destruct lsb; reflexivity. }
+    rewrite Hc in Hres. cbn [bind] in Hres. rewrite param_ids_eq, Hps in Hres. cbn [flat_map mapM bind] in Hres.
+    unfold resolve_def in Hres. rewrite Hd, Hp in Hres. fold (order_path_of lsb) in Hres.
+    rewrite (Hord lsb) in Hres. inversion Hres; reflexivity.
+  Qed.
+
+  (** only the label [Cow<..>] has an entry the generator looks through *)
+  Lemma entry_not_cow c t0 : entry_of defs L r c t0 -> (forall y, c <> SCow y) -> cow_step r t0 = Ok t0.
+  Proof.
+    intros He Hc. rewrite cow_step_eq.
+    assert (H : is_cow (path_ident (t_path t0)) = false); [|rewrite H; reflexivity].
+    destruct c; cbn [entry_of] in He.
+    - destruct He.
+    - destruct He as (sd' & Hsd' & Hpath & _). rewrite Hpath.
+      pose proof (Hdefs sd' (nth_error_In _ _ Hsd')) as Hok. unfold def_okb in Hok.
+      apply andb_prop in Hok as [Hok Hok4]. apply andb_prop in Hok as [Hok _]. apply andb_prop in Hok as [_ Hok2].
+      destruct (sd_path sd') as [|pa [|pb pl]] eqn:Epath; try discriminate Hok2.
+      rewrite is_cow_last by discriminate. apply negb_true_iff in Hok4. exact Hok4.
+    - destruct He as (e & (Hp & _) & _). rewrite Hp. reflexivity.
+    - destruct He.
+    - destruct He as (e & (Hp & _) & _). rewrite Hp. reflexivity.
+    - destruct He as (e & (Hp & _) & _). rewrite Hp. reflexivity.
+    - destruct He as (Hp & _). rewrite Hp. reflexivity.
+    - destruct He as (e & (Hp & _) & _). rewrite Hp. reflexivity.
+    - destruct He.
+    - destruct He as (e & _ & Hp & _). rewrite Hp. reflexivity.
+    - destruct He as (x & y & _ & _ & Hp & _). rewrite Hp. reflexivity.
+    - destruct He as (ik & iv & iseq & _ & _ & _ & Hp & _). rewrite Hp. reflexivity.
+    - destruct He as (e & iseq & _ & _ & Hp & _). rewrite Hp. reflexivity.
+    - exfalso. eapply Hc. reflexivity.
+    - destruct He as (e & _ & Hp & _). rewrite Hp. reflexivity.
+    - destruct He as (ist & io & ot & (Hp & _) & _). rewrite Hp. reflexivity.
+  Qed.
+
   (** resolved parameters of an application, position by position *)
   Lemma app_params fuel : forall (pl : list (string * bool)) (xs : list src) (tps : list tparam) ps,
     List.length xs = List.length pl ->
@@ -229,9 +359,10 @@ Section Core.
       the fragment, under the parameters of the instantiation, gives - up to the ids stored in
       [Param] nodes - the normalised path of [c] *)
   Lemma resolve_src : forall n c,
-    (src_size c <= n)%nat -> src_fragment c = true ->
+    (src_size c <= n)%nat -> no_cow_cow c = true ->
     (forall c', In c' (components_fuel n defs c) -> is_param c' = false -> notlive c') ->
-    (forall c', In c' (components_fuel n defs c) -> match c' with SBox (SParam _) => False | _ => True end) ->
+    (forall c', In c' (components_fuel n defs c) ->
+                match c' with SBox (SParam _) | SCow (SParam _) => False | _ => True end) ->
     (forall i nm, In i (src_params_fuel n defs c) -> nth_error (sd_params sd) i <> Some (nm, true)) ->
     forall fuel id isf orig t,
     (forall i, c = SParam i ->
@@ -245,7 +376,7 @@ Section Core.
     destruct fuel as [|fuel]; [discriminate|].
     rewrite resolve_rec_S in Hres. rewrite components_S in Hnl, Hwr. rewrite src_params_S in Hsk.
     (* recursion on a direct component *)
-    assert (Hsub : forall x, (src_size x <= n)%nat -> src_fragment x = true ->
+    assert (Hsub : forall x, (src_size x <= n)%nat -> no_cow_cow x = true ->
               (forall c', In c' (components_fuel n defs x) -> In c' (components_fuel (S n) defs c)) ->
               (forall i, In i (src_params_fuel n defs x) -> In i (src_params_fuel (S n) defs c)) ->
               x <> SParam 0 \/ True ->
@@ -261,7 +392,7 @@ Section Core.
       - exact Hr'. }
     assert (Hself : is_param c = false -> find_parent parents id orig = None).
     { intros Hp. eapply no_parent; [exact Hl|]. apply Hnl; [left; reflexivity|exact Hp]. }
-    destruct c as [i|d' xs|x|x|len x|xs|p|x|x|x|a b|a b|x|x|x|st lsb]; try discriminate Hfr.
+    destruct c as [i|d' xs|x|x|len x|xs|p|x|x|x|a b|a b|x|x|x|st lsb].
     - (* SParam *)
       clear Hself. unfold cs in Hl. cbn [subst_src] in Hl.
       destruct (nth_error args i) as [a|] eqn:Ea.
@@ -315,7 +446,7 @@ Section Core.
       apply (app_params fuel (sd_params sd') xs (t_params t0) ps Hlen' Hps Hmps).
       intros x id' t' Hx Hl' Hr'.
       assert (Hxin : In x xs) by (eapply live_go_incl; eauto).
-      cbn [src_fragment] in Hfr. rewrite forallb_forall in Hfr.
+      cbn [no_cow_cow] in Hfr. rewrite forallb_forall in Hfr.
       rewrite src_size_app in Hsz. pose proof (sizes_In _ _ Hxin).
       apply (Hsub x) with (id' := id') (t' := t'); auto; try lia.
       + intros c' Hc'. rewrite components_S. right. apply in_flat_map. exists x.
@@ -329,7 +460,7 @@ Section Core.
       rewrite (resolve_type_entry _ _ Hr0) in Hres. cbn [bind] in Hres. rewrite Hc in Hres. cbn [bind] in Hres.
       rewrite Hp in Hres. cbn [mapM bind] in Hres. unfold resolve_def in Hres. rewrite Hd in Hres.
       apply bind_ok in Hres as (i & Hi & Hres). inversion Hres; subst t. cbn [erase_tpath]. unfold nt.
-      cbn [src_tpath]. f_equal. cbn [src_size] in Hsz. cbn [src_fragment] in Hfr.
+      cbn [src_tpath]. f_equal. cbn [src_size] in Hsz. cbn [no_cow_cow] in Hfr.
       apply (Hsub x) with (id' := e) (t' := i); auto; try lia.
       intros c' Hc'. rewrite components_S. right. exact Hc'.
     - (* SVecDeque *)
@@ -339,7 +470,7 @@ Section Core.
       rewrite (resolve_type_entry _ _ Hr0) in Hres. cbn [bind] in Hres. rewrite Hc in Hres. cbn [bind] in Hres.
       rewrite Hp in Hres. cbn [mapM bind] in Hres. unfold resolve_def in Hres. rewrite Hd in Hres.
       apply bind_ok in Hres as (i & Hi & Hres). inversion Hres; subst t. cbn [erase_tpath]. unfold nt.
-      cbn [src_tpath]. f_equal. cbn [src_size] in Hsz. cbn [src_fragment] in Hfr.
+      cbn [src_tpath]. f_equal. cbn [src_size] in Hsz. cbn [no_cow_cow] in Hfr.
       apply (Hsub x) with (id' := e) (t' := i); auto; try lia.
       intros c' Hc'. rewrite components_S. right. exact Hc'.
     - (* SArray *)
@@ -349,7 +480,7 @@ Section Core.
       rewrite (resolve_type_entry _ _ Hr0) in Hres. cbn [bind] in Hres. rewrite Hc in Hres. cbn [bind] in Hres.
       rewrite Hp in Hres. cbn [mapM bind] in Hres. unfold resolve_def in Hres. rewrite Hd in Hres.
       apply bind_ok in Hres as (i & Hi & Hres). inversion Hres; subst t. cbn [erase_tpath]. unfold nt.
-      cbn [src_tpath]. f_equal. cbn [src_size] in Hsz. cbn [src_fragment] in Hfr.
+      cbn [src_tpath]. f_equal. cbn [src_size] in Hsz. cbn [no_cow_cow] in Hfr.
       apply (Hsub x) with (id' := e) (t' := i); auto; try lia.
       intros c' Hc'. rewrite components_S. right. exact Hc'.
     - (* STup *)
@@ -362,7 +493,7 @@ Section Core.
       rewrite src_tpath_tup. f_equal.
       apply (tup_elems fuel xs es l Hes Hml).
       intros x id' t' Hxin Hl' Hr'.
-      cbn [src_fragment] in Hfr. rewrite forallb_forall in Hfr.
+      cbn [no_cow_cow] in Hfr. rewrite forallb_forall in Hfr.
       rewrite src_size_tup in Hsz. pose proof (sizes_In _ _ Hxin).
       apply (Hsub x) with (id' := id') (t' := t'); auto; try lia.
       + intros c' Hc'. rewrite components_S. right. apply in_flat_map. exists x. auto.
@@ -382,17 +513,131 @@ Section Core.
       rewrite Hp in Hres. cbn [mapM bind] in Hres. unfold resolve_def in Hres. rewrite Hd in Hres.
       apply bind_ok in Hres as (i & Hi & Hres). destruct (s_compact s) as [cp|] eqn:Ecp; [|discriminate].
       inversion Hres; subst t. cbn [erase_tpath]. unfold nt.
-      cbn [src_tpath]. rewrite Ecp. cbn [opt_toks]. f_equal. cbn [src_size] in Hsz. cbn [src_fragment] in Hfr.
+      cbn [src_tpath]. rewrite Ecp. cbn [opt_toks]. f_equal. cbn [src_size] in Hsz. cbn [no_cow_cow] in Hfr.
       apply (Hsub x) with (id' := e) (t' := i); auto; try lia.
       intros c' Hc'. rewrite components_S. right. exact Hc'.
     - (* SBox: transparent, the same id *)
       clear Hself Hsub. rewrite <- resolve_rec_S in Hres.
-      cbn [src_size] in Hsz. cbn [src_fragment] in Hfr.
+      cbn [src_size] in Hsz. cbn [no_cow_cow] in Hfr.
       unfold nt. cbn [src_tpath].
       apply (IH x) with (fuel := S fuel) (id := id) (orig := orig); auto; try lia.
       + intros c' Hc'. apply Hnl. right. exact Hc'.
       + intros c' Hc'. apply Hwr. right. exact Hc'.
       + intros i -> . exfalso. apply (Hwr (SBox (SParam i))). left; reflexivity.
+    - (* SOpt *)
+      rewrite <- resolve_rec_S in Hres. unfold cs in Hl. cbn [subst_src canon] in Hl. fold (cs args x) in Hl.
+      destruct (entry _ _ Hl) as (t0 & Hr0 & e & He & Hpath & Hps & Hd).
+      destruct (resolve_prelude fuel id isf orig t0 "Option" (abs_path ["core"; "option"; "Option"]) t
+                  (Hself eq_refl) Hr0 Hpath ltac:(cbn; tauto) ltac:(rewrite Hd; reflexivity) eq_refl Hres)
+        as (ps & Hmps & ->).
+      rewrite param_ids_eq, Hps in Hmps. cbn [flat_map tp_ty app] in Hmps.
+      cbn [erase_tpath]. unfold nt. cbn [src_tpath]. f_equal.
+      apply (tup_elems fuel [x] [e] ps); [constructor; [exact He|constructor]|exact Hmps|].
+      intros x' id' t' [<-|[]] Hl' Hr'. cbn [src_size] in Hsz. cbn [no_cow_cow] in Hfr.
+      apply (Hsub x) with (id' := id') (t' := t'); auto; try lia.
+      intros c' Hc'. rewrite components_S. right. exact Hc'.
+    - (* SRes *)
+      rewrite <- resolve_rec_S in Hres. unfold cs in Hl. cbn [subst_src canon] in Hl.
+      fold (cs args a) in Hl. fold (cs args b) in Hl.
+      destruct (entry _ _ Hl) as (t0 & Hr0 & ix & iy & Hix & Hiy & Hpath & Hps & Hd).
+      destruct (resolve_prelude fuel id isf orig t0 "Result" (abs_path ["core"; "result"; "Result"]) t
+                  (Hself eq_refl) Hr0 Hpath ltac:(cbn; tauto) ltac:(rewrite Hd; reflexivity) eq_refl Hres)
+        as (ps & Hmps & ->).
+      rewrite param_ids_eq, Hps in Hmps. cbn [flat_map tp_ty app] in Hmps.
+      cbn [erase_tpath]. unfold nt. cbn [src_tpath]. f_equal.
+      apply (tup_elems fuel [a; b] [ix; iy] ps);
+        [constructor; [exact Hix|constructor; [exact Hiy|constructor]]|exact Hmps|].
+      cbn [src_size] in Hsz. cbn [no_cow_cow] in Hfr. apply andb_prop in Hfr as [Hfa Hfb].
+      intros x' id' t' [<-|[<-|[]]] Hl' Hr'.
+      + apply (Hsub a) with (id' := id') (t' := t'); auto; try lia.
+        * intros c' Hc'. rewrite components_S. right. apply in_or_app. left. exact Hc'.
+        * intros i Hi. rewrite src_params_S. apply in_or_app. left. exact Hi.
+      + apply (Hsub b) with (id' := id') (t' := t'); auto; try lia.
+        * intros c' Hc'. rewrite components_S. right. apply in_or_app. right. exact Hc'.
+        * intros i Hi. rewrite src_params_S. apply in_or_app. right. exact Hi.
+    - (* SBTreeMap *)
+      rewrite <- resolve_rec_S in Hres. unfold cs in Hl. cbn [subst_src canon] in Hl.
+      fold (cs args a) in Hl. fold (cs args b) in Hl.
+      destruct (entry _ _ Hl) as (t0 & Hr0 & ix & iy & iseq & Hix & Hiy & _ & Hpath & Hps & Hd).
+      destruct (resolve_prelude fuel id isf orig t0 "BTreeMap"
+                  (alloc_tokens (s_alloc s) ++ abs_path ["collections"; "BTreeMap"]) t
+                  (Hself eq_refl) Hr0 Hpath ltac:(cbn; tauto) ltac:(rewrite Hd; reflexivity) eq_refl Hres)
+        as (ps & Hmps & ->).
+      rewrite param_ids_eq, Hps in Hmps. cbn [flat_map tp_ty app] in Hmps.
+      cbn [erase_tpath]. unfold nt. cbn [src_tpath]. f_equal.
+      apply (tup_elems fuel [a; b] [ix; iy] ps);
+        [constructor; [exact Hix|constructor; [exact Hiy|constructor]]|exact Hmps|].
+      cbn [src_size] in Hsz. cbn [no_cow_cow] in Hfr. apply andb_prop in Hfr as [Hfa Hfb].
+      intros x' id' t' [<-|[<-|[]]] Hl' Hr'.
+      + apply (Hsub a) with (id' := id') (t' := t'); auto; try lia.
+        * intros c' Hc'. rewrite components_S. right. apply in_or_app. left. exact Hc'.
+        * intros i Hi. rewrite src_params_S. apply in_or_app. left. exact Hi.
+      + apply (Hsub b) with (id' := id') (t' := t'); auto; try lia.
+        * intros c' Hc'. rewrite components_S. right. apply in_or_app. right. exact Hc'.
+        * intros i Hi. rewrite src_params_S. apply in_or_app. right. exact Hi.
+    - (* SBTreeSet *)
+      rewrite <- resolve_rec_S in Hres. unfold cs in Hl. cbn [subst_src canon] in Hl. fold (cs args x) in Hl.
+      destruct (entry _ _ Hl) as (t0 & Hr0 & e & iseq & He & _ & Hpath & Hps & Hd).
+      destruct (resolve_prelude fuel id isf orig t0 "BTreeSet"
+                  (alloc_tokens (s_alloc s) ++ abs_path ["collections"; "BTreeSet"]) t
+                  (Hself eq_refl) Hr0 Hpath ltac:(cbn; tauto) ltac:(rewrite Hd; reflexivity) eq_refl Hres)
+        as (ps & Hmps & ->).
+      rewrite param_ids_eq, Hps in Hmps. cbn [flat_map tp_ty app] in Hmps.
+      cbn [erase_tpath]. unfold nt. cbn [src_tpath]. f_equal.
+      apply (tup_elems fuel [x] [e] ps); [constructor; [exact He|constructor]|exact Hmps|].
+      intros x' id' t' [<-|[]] Hl' Hr'. cbn [src_size] in Hsz. cbn [no_cow_cow] in Hfr.
+      apply (Hsub x) with (id' := id') (t' := t'); auto; try lia.
+      intros c' Hc'. rewrite components_S. right. exact Hc'.
+    - (* SCow: looked through once; its argument is neither a parameter nor a Cow *)
+      clear Hsub. rewrite (Hself eq_refl) in Hres. unfold cs in Hl. cbn [subst_src canon] in Hl. fold (cs args x) in Hl.
+      destruct (entry _ _ Hl) as (t0 & Hr0 & e & He & Hpath & Hps & Hd).
+      rewrite (resolve_type_entry _ _ Hr0) in Hres. cbn [bind] in Hres.
+      rewrite cow_step_eq, Hpath, Hps in Hres. cbn [path_ident last is_cow String.eqb Ascii.eqb Bool.eqb tp_ty] in Hres.
+      destruct (entry _ _ He) as (t1 & Hr1 & Hent1).
+      rewrite (resolve_type_entry _ _ Hr1) in Hres. cbn [bind] in Hres.
+      cbn [src_size] in Hsz. cbn [no_cow_cow] in Hfr. apply andb_prop in Hfr as [Hfc Hfx].
+      assert (Hxin : In x (components_fuel n defs x)) by (apply components_self; lia).
+      assert (Hxp : is_param x = false).
+      { destruct x; try reflexivity. exfalso. apply (Hwr (SCow (SParam i))). left; reflexivity. }
+      assert (Hub : match unbox x with SCow _ | SParam _ => False | _ => True end).
+      { destruct (unbox x) eqn:Eu; try exact I; try discriminate Hfc.
+        destruct (unbox_param defs i x n ltac:(lia) Eu) as [->|Hin]; [discriminate Hxp|].
+        apply (Hwr (SBox (SParam i))). right. exact Hin. }
+      assert (Hx : resolve_rec r s (S fuel) e isf parents None = Ok t).
+      { rewrite resolve_rec_S.
+        rewrite (no_parent e x None He (Hnl x (or_intror Hxin) Hxp)).
+        rewrite (resolve_type_entry _ _ Hr1). cbn [bind].
+        rewrite (entry_not_cow _ _ Hent1 (cs_not_cow args x Hub)). cbn [bind]. exact Hres. }
+      unfold nt. cbn [src_tpath].
+      apply (IH x) with (fuel := S fuel) (id := e) (orig := None); auto; try lia.
+      + intros c' Hc'. apply Hnl. right. exact Hc'.
+      + intros c' Hc'. apply Hwr. right. exact Hc'.
+    - (* SRange *)
+      rewrite <- resolve_rec_S in Hres. unfold cs in Hl. cbn [subst_src canon] in Hl. fold (cs args x) in Hl.
+      destruct (entry _ _ Hl) as (t0 & Hr0 & e & He & Hpath & Hps & Hd).
+      destruct (resolve_prelude fuel id isf orig t0 "Range" (abs_path ["core"; "ops"; "Range"]) t
+                  (Hself eq_refl) Hr0 Hpath ltac:(cbn; tauto) ltac:(rewrite Hd; reflexivity) eq_refl Hres)
+        as (ps & Hmps & ->).
+      rewrite param_ids_eq, Hps in Hmps. cbn [flat_map tp_ty app] in Hmps.
+      cbn [erase_tpath]. unfold nt. cbn [src_tpath]. f_equal.
+      apply (tup_elems fuel [x] [e] ps); [constructor; [exact He|constructor]|exact Hmps|].
+      intros x' id' t' [<-|[]] Hl' Hr'. cbn [src_size] in Hsz. cbn [no_cow_cow] in Hfr.
+      apply (Hsub x) with (id' := id') (t' := t'); auto; try lia.
+      intros c' Hc'. rewrite components_S. right. exact Hc'.
+    - (* SBitVec: store primitive, order marker as the settings resolve it *)
+      rewrite (Hself eq_refl) in Hres. unfold cs in Hl. cbn [subst_src canon] in Hl.
+      destruct (entry _ _ Hl) as (t0 & Hr0 & ist & io & ot & Hb & Hist & Hio & Hrot & Hom).
+      destruct (builtin_not_cow _ _ Hb) as (Hc & Hp & Hd).
+      rewrite (resolve_type_entry _ _ Hr0) in Hres. cbn [bind] in Hres. rewrite Hc in Hres. cbn [bind] in Hres.
+      rewrite Hp in Hres. cbn [mapM bind] in Hres. unfold resolve_def in Hres. rewrite Hd in Hres.
+      destruct (s_bits s) as [bp|] eqn:Eb; [|discriminate].
+      apply bind_ok in Hres as (o & Ho & Hres). apply bind_ok in Hres as (st' & Hst & Hres).
+      inversion Hres; subst t. destruct fuel as [|fuel]; [discriminate|].
+      rewrite (resolve_order fuel io lsb ot o Hio Hrot Hom Ho).
+      assert (Hfp : find_parent parents ist None = None).
+      { apply (no_parent ist (SPrimT st) None); [exact Hist|]. apply Hnl; [right; left; reflexivity|reflexivity]. }
+      rewrite (resolve_prim fuel ist false None st st' Hfp Hist Hst).
+      cbn [erase_tpath]. rewrite (otp_erase lsb). unfold nt. cbn [src_tpath]. rewrite Eb. reflexivity.
   Qed.
 End Core.
 
@@ -632,6 +877,8 @@ Section Main.
   Variable otp : bool -> tpath.
   Hypothesis HR : RegistryOf defs L r.
   Hypothesis Hdefs : forall sd, In sd defs -> def_okb s sd = true.
+  Hypothesis Hprel : prelude_okb s = true.
+  Hypothesis Hord : order_resolves s otp.
 
   Variable d : nat.
   Variable sd : sdef.
@@ -639,7 +886,7 @@ Section Main.
   Hypothesis Hsd : nth_error defs d = Some sd.
   Hypothesis Hcf : instantiation_cf defs sd args = true.
   Hypothesis Hcan : map canon args = args.
-  Hypothesis Hfrag : forallb field_fragment (def_sfields sd) = true.
+  Hypothesis Hfrag : forallb (fun f => no_cow_cow (sf_ty f)) (def_sfields sd) = true.
   Hypothesis Hcompact : compact_fields_okb defs sd args = true.
   Hypothesis Hbox : box_names_okb defs sd = true.
 
@@ -699,20 +946,19 @@ Section Main.
       - apply in_map. exact Hin.
       - apply in_flat_map in Hin as (v & Hv & Hin). apply in_flat_map. exists v. split; [exact Hv|apply in_map; exact Hin]. }
     destruct (Hcomp _ Hft) as (Hwrap & Hnl).
-    rewrite forallb_forall in Hfrag. pose proof (Hfrag sf Hin) as Hff. unfold field_fragment in Hff.
-    apply andb_prop in Hff as [Hff1 Hff2].
+    rewrite forallb_forall in Hfrag. pose proof (Hfrag sf Hin) as Hff1. cbv beta in Hff1.
     (* the hypotheses of the core for the field type *)
     assert (Hnl' : forall c', In c' (components_fuel (src_size (sf_ty sf)) defs (sf_ty sf)) ->
                    is_param c' = false -> notlive sd args c').
     { intros c' Hc' Hp a (i & nm & Hi1 & Hi2). apply (Hnl c' Hc' Hp). eapply liveL_In; eauto. }
     assert (Hwr' : forall c', In c' (components_fuel (src_size (sf_ty sf)) defs (sf_ty sf)) ->
-                   match c' with SBox (SParam _) => False | _ => True end).
-    { intros c' Hc'. destruct c' as [| | | | | | | |[]| | | | | | |]; try exact I.
-      unfold wrapper_on_param in Hwrap.
-      assert (E : existsb (fun c => match c with SBox (SParam _) | SCow (SParam _) => true | _ => false end)
-                          (components defs (sf_ty sf)) = true).
-      { apply existsb_exists. eexists. split; [exact Hc'|reflexivity]. }
-      congruence. }
+                   match c' with SBox (SParam _) | SCow (SParam _) => False | _ => True end).
+    { intros c' Hc'.
+      assert (E : (match c' with SBox (SParam _) | SCow (SParam _) => true | _ => false end) = false).
+      { destruct (match c' with SBox (SParam _) | SCow (SParam _) => true | _ => false end) eqn:Em; [|reflexivity].
+        unfold wrapper_on_param in Hwrap. rewrite <- Hwrap. symmetry. apply existsb_exists.
+        exists c'. split; [exact Hc'|exact Em]. }
+      destruct c' as [| | | | | | | |[]| | | | |[]| |]; try exact I; discriminate E. }
     assert (Hsk' : forall i nm, In i (src_params_fuel (src_size (sf_ty sf)) defs (sf_ty sf)) ->
                    nth_error (sd_params sd) i <> Some (nm, true)).
     { intros i nm Hi E. unfold skipped_unused in Hsku. rewrite forallb_forall in Hsku.
@@ -755,12 +1001,12 @@ Section Main.
       apply bind_ok in Hp as (i & Hi & Hp). destruct (s_compact s) as [cp|] eqn:Ecp; [|discriminate].
       inversion Hp; subst p. cbn [erase_tpath src_tpath is_compact]. rewrite Ecp. cbn [opt_toks].
       f_equal. f_equal.
-      apply (resolve_src defs L r s otp HR Hdefs sd args parents Hlen Hcanon Hp1 Hp2 args_dist
+      apply (resolve_src defs L r s otp HR Hdefs Hprel Hord sd args parents Hlen Hcanon Hp1 Hp2 args_dist
                 (src_size (sf_ty sf)) (sf_ty sf) (le_n _) Hff1 Hnl' Hwr' Hsk' fuel e false None i);
         [intros i0 _; left; reflexivity|exact He|exact Hi].
     - (* the field's id is the closed field type *)
       assert (Ht : erase_tpath p = src_tpath defs s otp true (sf_ty sf)).
-      { apply (resolve_src defs L r s otp HR Hdefs sd args parents Hlen Hcanon Hp1 Hp2 args_dist
+      { apply (resolve_src defs L r s otp HR Hdefs Hprel Hord sd args parents Hlen Hcanon Hp1 Hp2 args_dist
                   (src_size (sf_ty sf)) (sf_ty sf) (le_n _) Hff1 Hnl' Hwr' Hsk' (fuel0 r) (f_ty f) true
                   (f_type_name f) p); [|exact Hlab|exact Hp].
         intros i Ei. rewrite Htn. destruct (sf_type_name sf); [right|left; reflexivity].
@@ -826,8 +1072,9 @@ Qed.
 
 Theorem one_item defs L r s (otp : bool -> tpath) :
   RegistryOf defs L r -> (forall sd, In sd defs -> def_okb s sd = true) ->
+  prelude_okb s = true -> order_resolves s otp ->
   forall d sd, nth_error defs d = Some sd ->
-  forallb field_fragment (def_sfields sd) = true -> box_names_okb defs sd = true ->
+  forallb (fun f => no_cow_cow (sf_ty f)) (def_sfields sd) = true -> box_names_okb defs sd = true ->
   forall args1 args2 t1 t2 flat1 flat2 ir1 ir2,
   instantiation_cf defs sd args1 = true -> map canon args1 = args1 -> compact_fields_okb defs sd args1 = true ->
   instantiation_cf defs sd args2 = true -> map canon args2 = args2 -> compact_fields_okb defs sd args2 = true ->
@@ -836,11 +1083,11 @@ Theorem one_item defs L r s (otp : bool -> tpath) :
   map tpi_idx (ti_params ir1) = map tpi_idx (ti_params ir2) /\
   Forall2 (fun f1 f2 => erase_fi f1 = erase_fi f2) (kind_fields (ti_kind ir1)) (kind_fields (ti_kind ir2)).
 Proof.
-  intros HR Hdefs d sd Hsd Hfrag Hbox args1 args2 t1 t2 flat1 flat2 ir1 ir2
+  intros HR Hdefs Hprel Hord d sd Hsd Hfrag Hbox args1 args2 t1 t2 flat1 flat2 ir1 ir2
          Hcf1 Hcan1 Hco1 Hcf2 Hcan2 Hco2 He1 He2 Hc1 Hc2.
-  destruct (skeleton_is_source defs L r s otp HR Hdefs d sd args1 Hsd Hcf1 Hcan1 Hfrag Hco1 Hbox t1 He1 flat1 ir1 Hc1)
+  destruct (skeleton_is_source defs L r s otp HR Hdefs Hprel Hord d sd args1 Hsd Hcf1 Hcan1 Hfrag Hco1 Hbox t1 He1 flat1 ir1 Hc1)
     as (Hp1 & Hf1).
-  destruct (skeleton_is_source defs L r s otp HR Hdefs d sd args2 Hsd Hcf2 Hcan2 Hfrag Hco2 Hbox t2 He2 flat2 ir2 Hc2)
+  destruct (skeleton_is_source defs L r s otp HR Hdefs Hprel Hord d sd args2 Hsd Hcf2 Hcan2 Hfrag Hco2 Hbox t2 He2 flat2 ir2 Hc2)
     as (Hp2 & Hf2).
   split; [congruence|].
   apply (Forall2_common (fun sf fi => erase_fi fi = normal_field defs s otp sf)
@@ -848,6 +1095,14 @@ Proof.
                         (fun f1 f2 => erase_fi f1 = erase_fi f2)) with (la := def_sfields sd);
     [|exact Hf1|exact Hf2].
   intros a b c H1 H2. congruence.
+Qed.
+
+Lemma order_resolvesb_sound s : order_resolvesb s = true -> order_resolves s (order_tp_of s).
+Proof.
+  unfold order_resolvesb, order_resolves, order_tp_of. intros H lsb. apply andb_prop in H as [H1 H2].
+  destruct lsb.
+  - destruct (type_path_maybe_with_substitutes s (order_path_of true) []); try discriminate H1. reflexivity.
+  - destruct (type_path_maybe_with_substitutes s (order_path_of false) []); try discriminate H2. reflexivity.
 Qed.
 
 (** ** a concrete program on which every hypothesis holds: [a::Foo<T> { x: T, y: Box<Vec<T>> }]
@@ -914,12 +1169,17 @@ Proof.
 Qed.
 
 Definition ex5_sd : sdef := nth 0 ex5_defs (mk_sdef [] [] (SBStruct [])).
-Definition ex5_otp (_ : bool) : tpath := TPrim PBool.
+Definition ex5_otp : bool -> tpath := order_tp_of ex5_s.
+
+Lemma ex5_settings_ok : prelude_okb ex5_s = true /\ order_resolves ex5_s ex5_otp /\ render_okb ex5_s ex5_defs = true.
+Proof.
+  split; [vm_compute; reflexivity|]. split; [apply order_resolvesb_sound; vm_compute; reflexivity|vm_compute; reflexivity].
+Qed.
 
 Lemma ex5_hypotheses :
   (forall sd, In sd ex5_defs -> def_okb ex5_s sd = true) /\
   nth_error ex5_defs 0 = Some ex5_sd /\
-  forallb field_fragment (def_sfields ex5_sd) = true /\ box_names_okb ex5_defs ex5_sd = true /\
+  forallb (fun f => no_cow_cow (sf_ty f)) (def_sfields ex5_sd) = true /\ box_names_okb ex5_defs ex5_sd = true /\
   instantiation_cf ex5_defs ex5_sd [SPrimT PU16; SPrimT PStr] = true /\
   instantiation_cf ex5_defs ex5_sd [SPrimT PBool; SPrimT PStr] = true /\
   compact_fields_okb ex5_defs ex5_sd [SPrimT PU16; SPrimT PStr] = true /\
